@@ -3,6 +3,7 @@ import GodiProofs.Props.C05
 import GodiProofs.Graph.Remove
 import GodiProofs.Graph.AddRollback
 import GodiProofs.Graph.Transitive
+import GodiProofs.Graph.Depths
 /-!
 # C19 — The dependency graph always agrees with a plain digraph model
 
@@ -225,6 +226,20 @@ theorem transitive_dependencies_eq (g : Graph) (b : Base g) (k : Key) :
     (getTransitiveDependencies g k).Nodup ∧
     ∀ x, x ∈ getTransitiveDependencies g k ↔ (x ≠ k ∧ Reach (abs g).edge k x) :=
   transitive_spec g b k
+
+/-- `CalculateDepths`, soundness half (`depths_partial`): on a graph that satisfies the invariants — cyclic or not,
+whatever the iteration order and the fuel — a depth `m ≥ 0` assigned to `k` is witnessed by a chain of exactly `m`
+dependency edges from `k` down to a node without dependencies; every other node keeps `-1`. What is missing for the
+full statement (on an acyclic graph the depth is the LONGEST such chain) is the maximality, which the exhaustive
+correspondence stream and the reference-digraph monitor `longest` validate. -/
+theorem depths_partial (g : Graph) (b : Base g) (s : Synced g) (norder : List Key) (hn : ∀ k ∈ norder, k ∈ g.nodes) (k : Key) :
+    (calculateDepthsWith g norder).depth k = -1 ∨
+    ∃ m : Nat, (calculateDepthsWith g norder).depth k = (m : Int) ∧ Chain (abs g).edge k m :=
+  depths_witnessed g b s norder hn k
+
+/-- non-vacuity: 3 → 2 → 1 and 3 → 1: depths 1:0, 2:1, 3:2 (the longer chain) -/
+example : let g := (detectCycles (addProviderDeferred (addProviderDeferred (addProviderDeferred {} 3 30 [2, 1]) 2 20 [1]) 1 10 [])).1
+    ((calculateDepths g).depth 1, (calculateDepths g).depth 2, (calculateDepths g).depth 3) = (0, 1, 2) := by decide
 
 /-- non-vacuity: 3 → 2 → 1 → 3 is a ring with a tail 1 → 4: from 3 everything but 3 itself -/
 example : let g := (detectCycles (addProviderDeferred (addProviderDeferred (addProviderDeferred {} 3 30 [2]) 2 20 [1]) 1 10 [3, 4])).1
